@@ -301,6 +301,10 @@ def families(tier='quick'):
     fams.append(('two nodes above each other, edge stored downwards', [A, B, C], [(0, B, A, 0, 1), (1, B, C, 0, 1)], {A: (5.0, 5.0, 0.0), B: (5.0, 5.0, 30.0)}))
     fams.append(('chain whose polylines start and end with a doubled vertex', [A, B, C], [(0, A, B, 0, 1), (1, C, B, 0, 1)], 'repeat'))
     fams.append(('one-way ring stored backwards', [A, B, C, D], [(0, B, A, -1, 1), (1, C, B, -1, 1), (2, D, C, -1, 1), (3, A, D, -1, 1)]))
+    # identifiers that are falsy or look like the code's own sentinels: the empty string, 0 and -1 in the middle of a route
+    fams.append(('chain s - (empty-string id) - t', ['s', '', 't'], [('e0', 's', '', 0, 1), ('e1', '', 't', 0, 3)]))
+    fams.append(('chain 1 - 0 - 2 (id 0 in the middle), second edge stored backwards', [1, 0, 2], [(0, 1, 0, 0, 1), (1, 2, 0, 0, 1)]))
+    fams.append(('chain 5 - (-1) - 7 (id -1 in the middle)', [5, -1, 7], [(0, 5, -1, 1, 1), (1, -1, 7, 1, 0)]))
     if tier == 'thorough':
         for (o1, o2, o3) in itertools.product(ORI, repeat=3):
             for (w1, w2, w3) in itertools.product(W, repeat=3):
